@@ -332,9 +332,18 @@ def worker(args: dict) -> dict:
                 swallowed_buckets.add(v.bucket())
                 remaining -= state["n"]
             except hypothesis.errors.Flaky as e:
-                # a failure that does not reproduce is a harness problem (state leak), never a violation
-                out["error"] = "Flaky: " + str(e)[:2000]
-                remaining = 0
+                if getattr(mod, "FLAKY_IS_VIOLATION", False) and state.get("last_fail") and state.get("v") is not None:
+                    # the property itself is about reproducibility: an oracle failure that does not
+                    # recur when the very same case is run again is the violation, not a harness fault
+                    v = state["v"]
+                    out["failures"].append(dict(case=json.loads(state["last_fail"]), message=str(v) + " [did not recur on immediate re-execution of the same case]",
+                                                bucket=v.bucket(), oracle=v.oracle, site=v.site, shrunk=False, origin="generated"))
+                    swallowed_buckets.add(v.bucket())
+                    remaining -= max(state["n"], 1)
+                else:
+                    # a failure that does not reproduce is a harness problem (state leak), never a violation
+                    out["error"] = "Flaky: " + str(e)[:2000]
+                    remaining = 0
         out["labels"] = dict(labels)
         out["known_hits"] = dict(known_hits)
         out["nontrivial_keys"] = sorted(nontrivial)
